@@ -81,6 +81,11 @@ def gen_cases(rng, thorough):
         # control: no fault
         add("control", learner_job(learner, rng, lines_of(es), rng.choice(pers), rng.randint(1, 3)), "return",
             learner=learner)
+        # control: the calling process has a second (idle) Python thread - a timer, a GUI, a notebook kernel
+        j = learner_job(learner, rng, lines_of(es), rng.choice(pers), rng.randint(1, 3))
+        j["bystander_thread"] = True
+        j["give_tmp"] = rng.random() < 0.5
+        add("control_caller_has_a_second_thread", j, "return", learner=learner)
         # duplicate cue under the default policy
         for k in positions:
             es2 = [[list(c), list(o)] for c, o in es]
@@ -188,6 +193,20 @@ def gen_cases(rng, thorough):
                     j["spool_fsize_limit"] = budget
                     add("generator_spool_storage_full budget=%d events=%d tmp_given=%s" % (budget, len(evs), give_tmp),
                         j, expect, learner=learner)
+    # temporary storage runs out for the WHOLE call (a full disk or a quota does not choose which file it hits): a
+    # file-size budget for every file the call writes, in the calling process and in its worker processes.  Small
+    # budgets fail early (the semaphores of the pools need 32 bytes), larger ones in the id maps, spool or chunks, large
+    # ones not at all: the call raises or returns ("any"), it must end and leave nothing behind.
+    budgets = [0, 16, 32, 40, 64, 100, 200, 400, 1000, 4000, 100000]
+    for learner in [x for x in LEARNERS if x in CHUNKED]:
+        es = base_events(rng, rng.randint(6, 10), False)
+        for budget in (budgets if thorough else rng.sample(budgets[2:9], 2) + [rng.choice(budgets[:2] + budgets[9:])]):
+            j = learner_job(learner, rng, lines_of(es), rng.choice([2, 3, 10000000]), rng.choice([1, 2]))
+            j["process_fsize_limit"] = budget
+            j["give_tmp"] = rng.random() < 0.6
+            if rng.random() < 0.3:
+                j["input"] = "generator"
+            add("storage_budget_for_the_whole_call=%d" % budget, j, "any", learner=learner)
     # default (system) temporary directory
     for learner in ("ndl_openmp", "wh_b2r"):
         es = base_events(rng, 6, False)
